@@ -225,6 +225,15 @@ func (w *Writer) Write(fr Frame) error {
 		}
 
 		encodeMessageInFrame(fr, mp)
+
+		// the checksum must correspond to the payload that is actually written,
+		// which can differ from the received one (i.e. non-canonical encodings).
+		switch ff := fr.(type) {
+		case *V1Frame:
+			ff.Checksum = ff.GenerateChecksum(mp.CRCExtra())
+		case *V2Frame:
+			ff.Checksum = ff.GenerateChecksum(mp.CRCExtra())
+		}
 	}
 
 	return w.writeFrameInner(fr)
